@@ -668,13 +668,15 @@ func emitGame(c *Ctx, g *genGame) {
 		c.Count(f)
 	}
 	c.Emit("ptnrender " + fmtPTN(g.p))
-	if rt := c.Emit("ptnrt " + fmtPTN(g.p)); g.safe && rt != "same" {
-		c.Count("roundtrip.SAFE-" + rt) // a generated-safe game that does not survive: contradicts render_parse_tokens
+	// render + parse on both sides, with the class of the value under the safety predicate next to the outcome:
+	// `safe` <=> `same` (C12.render_parse_bytes). (`ptnsafe` = `ptnrt` plus the class.)
+	cls := c.Emit("ptnsafe " + fmtPTN(g.p))
+	c.Count("ptnsafe." + strings.ReplaceAll(cls, " ", "/"))
+	if rt := cls[strings.IndexByte(cls, ' ')+1:]; g.safe && rt != "same" {
+		c.Count("roundtrip.SAFE-" + rt) // a generated-safe game that does not survive: contradicts render_parse_bytes
 	} else {
 		c.Count("roundtrip." + rt)
 	}
-	// the class under the safety predicate next to the outcome: `safe` <=> `same` (C12.render_parse_bytes)
-	c.Count("ptnsafe." + strings.ReplaceAll(c.Emit("ptnsafe "+fmtPTN(g.p)), " ", "/"))
 	text := []byte(g.p.Render())
 	if c.R.Chance(1, 3) {
 		text = append(append([]byte{}, bom...), text...)
@@ -685,7 +687,7 @@ func emitGame(c *Ctx, g *genGame) {
 	back, err := ptn.ParsePTN(bytes.NewReader(text))
 	if err != nil {
 		if g.safe {
-			c.Count("reparse.err-SAFE") // would contradict render_parse_tokens
+			c.Count("reparse.err-SAFE") // would contradict render_parse_bytes
 		} else {
 			c.Count("reparse.err-unsafe")
 		}
@@ -694,7 +696,7 @@ func emitGame(c *Ctx, g *genGame) {
 	if samePTN(g.p, back) {
 		c.Count("reparse.same")
 	} else if g.safe {
-		c.Count("reparse.differs-SAFE") // would contradict render_parse_tokens: the model run shows it as a disagreement
+		c.Count("reparse.differs-SAFE") // would contradict render_parse_bytes: the model run shows it as a disagreement
 	} else {
 		c.Count("reparse.differs-unsafe")
 	}
